@@ -150,12 +150,10 @@ class Network:
                 self._forget_introduction(address)
                 self._all_addresses[address] = WalkableAddress(peer.public_key.key_to_bin(), service, new_style)
                 intro_cache = self.reverse_intro_lookup.get(peer, None)
-                if intro_cache:
+                if intro_cache is not None:
+                    # Only extend a complete cached list. Without one (e.g., it was rotated out of the cache)
+                    # get_introductions_from() will compute all introductions of this peer when asked.
                     intro_cache.append(address)
-                else:
-                    self.reverse_intro_lookup[peer] = [address]
-                    if len(self.reverse_intro_lookup) > self.reverse_intro_cache_size:
-                        self.reverse_intro_lookup.popitem(False)  # Pop the oldest cache entry
 
             self.add_verified_peer(peer)
 
